@@ -39,7 +39,7 @@ ChkPanic(e, g) ==
 
 (* every Chk operator gets the event e (arguments) and one result group g *)
 ChkMerge(e, g) ==
-    LET t == Catalogue[e.ty]
+    LET t == Desc(e.ty)
         a == Abs(t, e.a)  b == Abs(t, e.b)
         j == Join(t, a, b)
     IN If(Abs(t, g.r) # j, "C04|@/merge/result")
@@ -49,17 +49,17 @@ ChkMerge(e, g) ==
 BitsOf(c) ==  \* lt, le, gt, ge, ne as the code must report them for Cmp = c
     B(c = -1) + 2 * B(c \in {-1, 0}) + 4 * B(c = 1) + 8 * B(c \in {0, 1}) + 16 * B(c # 0)
 ChkCmp(e, g) ==
-    LET t == Catalogue[e.ty]
+    LET t == Desc(e.ty)
         c == Cmp(t, Abs(t, e.a), Abs(t, e.b))
     IN If(g.c # c, "C03|@/partial_cmp/result")
        \cup If(g.eq # B(c = 0), "C03|@/eq/result")
        \cup If(g.bits # BitsOf(c), "C03|@/lt_le_gt_ge_ne/result")
 
 ChkFrom(e, g) ==
-    LET t == Catalogue[e.ty] IN If(Abs(t, g.r) # Abs(t, e.a), "C04|@/lattice_from/result")
+    LET t == Desc(e.ty) IN If(Abs(t, g.r) # Abs(t, e.a), "C04|@/lattice_from/result")
 
 ChkUn(e, g) ==
-    LET t == Catalogue[e.ty]
+    LET t == Desc(e.ty)
         a == Abs(t, e.a)
     IN If(g.bot # B(IsBot(t, a)), "C03|@/is_bot/result")
        \cup (IF g.top = B(IsTop(t, a)) THEN {}
@@ -67,11 +67,11 @@ ChkUn(e, g) ==
              ELSE {"C03|@/is_top/result"})
 
 ChkDefault(e, g) ==
-    LET t == Catalogue[e.ty] IN
+    LET t == Desc(e.ty) IN
     If(~IsBot(t, Abs(t, g.r)), "C03|@/default/not-bottom") \cup If(g.bot # 1, "C03|@/default/is_bot-false")
 
 ChkAtoms(e, g) ==
-    LET t == Catalogue[e.ty]
+    LET t == Desc(e.ty)
         a == Abs(t, e.a)
         ats == [i \in 1..Len(g.atoms) |-> Abs(t, g.atoms[i])]
     IN If(\E i \in 1..Len(ats) : IsBot(t, ats[i]), "C06|@/atomize/bottom-atom")
@@ -82,16 +82,16 @@ ChkAtoms(e, g) ==
        \cup If(g.eqre # 1, "C06|@/atomize/remerge-eq")
 
 ChkIdem(e, g) ==
-    LET t == Catalogue[e.ty] IN
+    LET t == Desc(e.ty) IN
     If(Abs(t, g.aa) # Abs(t, e.a), "C01|@/idempotent/value") \cup If(g.eq # 1, "C01|@/idempotent/eq")
 
 ChkComm(e, g) ==
-    LET t == Catalogue[e.ty] IN
+    LET t == Desc(e.ty) IN
     If(Abs(t, g.ab) # Abs(t, g.ba), "C01|@/commutative/value") \cup If(g.eq # 1, "C01|@/commutative/eq")
     \cup If(Abs(t, g.ab) # Join(t, Abs(t, e.a), Abs(t, e.b)), "C04|@/merge_owned/result")
 
 ChkAssoc(e, g) ==
-    LET t == Catalogue[e.ty] IN
+    LET t == Desc(e.ty) IN
     If(Abs(t, g.l) # Abs(t, g.r), "C01|@/associative/value") \cup If(g.eq # 1, "C01|@/associative/eq")
     \cup If(Abs(t, g.l) # Join(t, Join(t, Abs(t, e.a), Abs(t, e.b)), Abs(t, e.c)), "C04|@/merge_owned/result3")
 
